@@ -82,7 +82,7 @@ Lemma node_with_id_sig : forall ns ns', map node_sig ns' = map node_sig ns ->
     forall id a, node_with_id id ns = Some a -> exists a', node_with_id id ns' = Some a' /\ n_type a' = n_type a.
 Proof.
   induction ns as [|n ns IH]; intros [|n' ns'] Hm id a H; cbn [map node_with_id] in *; try discriminate.
-  injection Hm as Hs Hm. unfold node_sig in Hs. injection Hs as Hid Hty Hact. rewrite Hid.
+  injection Hm as Hid Hty Hact Hm. rewrite Hid.
   destruct (Z.eqb (n_id n) id).
   - injection H as <-. exists n'. auto.
   - now apply IH.
@@ -91,7 +91,7 @@ Qed.
 Lemma io_nodes_sig g g' : map node_sig (nodes g') = map node_sig (nodes g) -> io_nodes g' = io_nodes g.
 Proof.
   unfold io_nodes. generalize (nodes g) (nodes g'). induction l as [|n ns IH]; intros [|n' ns'] Hm; cbn [map filter] in *; try discriminate; [reflexivity|].
-  injection Hm as Hs Hm. unfold node_sig in Hs. injection Hs as Hid Hty Hact.
+  injection Hm as Hid Hty Hact Hm.
   assert (Hio : is_io n' = is_io n) by (unfold is_io, is_sensor; now rewrite Hty).
   rewrite Hio. destruct (is_io n); cbn [map]; [rewrite Hid, Hty; f_equal|]; now apply IH.
 Qed.
@@ -164,3 +164,508 @@ Proof.
   - intros i Hi. now apply (eo_rec _ _ He).
   - exact (eo_uniq _ _ He).
 Qed.
+
+(* ---------- parametric mutators: same signatures, trait references still resolve ---------- *)
+Lemma map_innov_sig l : map g_innov l = map snd (map gene_sig l).
+Proof. rewrite map_map. reflexivity. Qed.
+Lemma map_key_sig l : map link_key l = map fst (map gene_sig l).
+Proof. rewrite map_map. reflexivity. Qed.
+Lemma map_id_sig l : map n_id l = map (fun p => fst (fst p)) (map node_sig l).
+Proof. rewrite map_map. reflexivity. Qed.
+
+Lemma frame_wf g g' e :
+  frame g g' ->
+  (forall x' t, In x' (genes g') -> g_trait x' = Some t -> has_trait g t) ->
+  (forall n' t, In n' (nodes g') -> n_trait n' = Some t -> has_trait g t) ->
+  wf g -> env_ok e g -> wf g' /\ retains_io g g' /\ env_ok e g'.
+Proof.
+  intros (Fn & Fg & Ft & Fid & Fm) Hgt Hnt [Hne Hgs Hln Hns Hep Htr Htk Hout Hmod] He.
+  split; [|split].
+  - constructor.
+    + intros E. rewrite E in Fg. cbn in Fg. destruct (genes g); [now apply Hne|discriminate].
+    + unfold genes_sorted, asc in *. now rewrite map_innov_sig, Fg, <- map_innov_sig.
+    + unfold links_nodup in *. now rewrite map_key_sig, Fg, <- map_key_sig.
+    + unfold nodes_sorted, asc in *. now rewrite map_id_sig, Fn, <- map_id_sig.
+    + intros x' Hx'. destruct (sig_in gene_sig _ _ Fg x' Hx') as (x & Hx & Hs).
+      destruct (gene_sig_ends _ _ Hs) as [Ei Eo]. destruct (Hep x Hx) as (a & b & Ha & Hb & Hsb).
+      destruct (node_with_id_sig _ _ Fn _ _ Ha) as (a' & Ha' & _).
+      destruct (node_with_id_sig _ _ Fn _ _ Hb) as (b' & Hb' & Hty).
+      exists a', b'. rewrite <- Ei, <- Eo. repeat split; try assumption.
+      unfold is_sensor in *. now rewrite Hty.
+    + split.
+      * intros x' t Hx' Ht. eapply has_trait_same_ids; [exact Ft|]. eapply Hgt; eauto.
+      * intros n' t Hn' Ht. eapply has_trait_same_ids; [exact Ft|]. eapply Hnt; eauto.
+    + destruct Htk as [Hnn (id0 & Hpos & Hm)]. split.
+      * intros E. rewrite E in Ft. cbn in Ft. destruct (traits g); [now apply Hnn|discriminate].
+      * exists id0. split; [exact Hpos|]. rewrite Ft, Hm.
+        assert (Hl : length (traits g') = length (traits g)) by (rewrite <- (map_length t_id), Ft; apply map_length).
+        now rewrite Hl.
+    + destruct Hout as (n & Hn & Hty).
+      assert (Hi : In (node_sig n) (map node_sig (nodes g'))) by (rewrite Fn; now apply in_map).
+      apply in_map_iff in Hi. destruct Hi as (n' & Hs & Hn'). exists n'. split; [exact Hn'|].
+      unfold node_sig in Hs. injection Hs as _ Hty' _. congruence.
+    + congruence.
+  - unfold retains_io. rewrite (io_nodes_sig g g' Fn). apply incl_refl.
+  - apply (env_ok_grow e g g' He).
+    + intros z Hz. left. destruct (sig_in gene_sig _ _ Fg z Hz) as (y & Hy & Hs). now exists y.
+    + intros n Hn. left. destruct (sig_in node_sig _ _ Fn n Hn) as (m & Hm & Hs). exists m. split; [exact Hm|].
+      unfold node_sig in Hs. now injection Hs.
+Qed.
+
+(* the shape requested by props/C01.v *)
+Definition op_ok (g : genome) (s : st) (g' : genome) (s' : st) : Prop :=
+  wf g' /\ retains_io g g' /\ env_ok (s_env s') g' /\ env_extends (s_env s) (s_env s').
+
+Lemma op_ok_same_env g s g' s' :
+  s_env s' = s_env s -> wf g' /\ retains_io g g' /\ env_ok (s_env s) g' -> op_ok g s g' s'.
+Proof. intros E (A & B & C). unfold op_ok. rewrite E. split; [exact A|split; [exact B|split; [exact C|apply env_extends_refl]]]. Qed.
+
+Lemma wf_gene_trait g x t : wf g -> In x (genes g) -> g_trait x = Some t -> has_trait g t.
+Proof. intros H. exact (proj1 (wf_trait_refs g H) x t). Qed.
+Lemma wf_node_trait g n t : wf g -> In n (nodes g) -> n_trait n = Some t -> has_trait g t.
+Proof. intros H. exact (proj2 (wf_trait_refs g H) n t). Qed.
+
+Lemma Forall2_In_r {A} (R : A -> A -> Prop) l l' y : Forall2 R l l' -> In y l' -> exists x, In x l /\ R x y.
+Proof.
+  induction 1 as [|a b l l' Hab H IH]; intros Hin; [destruct Hin|].
+  destruct Hin as [<-|Hin]; [exists a; split; [now left|assumption]|].
+  destruct (IH Hin) as (x & Hx & Hr). exists x. split; [now right|assumption].
+Qed.
+
+Theorem mutate_link_weights_wf pw rt ga g s g' b s' :
+  mutate_link_weights pw rt ga g s = Ok ((g', b), s') -> wf g -> env_ok (s_env s) g -> op_ok g s g' s'.
+Proof.
+  intros H Hwf He. apply link_weights_spec in H. destruct H as (Fr & Hn & Ht & HF & _ & Es).
+  apply op_ok_same_env; [exact Es|]. apply frame_wf; auto.
+  - intros x' t Hx' Htr. destruct (Forall2_In_r _ _ _ _ HF Hx') as (x & Hx & (w & ->)).
+    eapply wf_gene_trait; eauto.
+  - rewrite Hn. intros n' t. now apply wf_node_trait.
+Qed.
+
+Theorem mutate_random_trait_wf o g s g' b s' :
+  mutate_random_trait o g s = Ok ((g', b), s') -> wf g -> env_ok (s_env s) g -> op_ok g s g' s'.
+Proof.
+  intros H Hwf He. apply random_trait_spec in H. destruct H as (Fr & Hn & Hg & _ & _ & Es).
+  apply op_ok_same_env; [exact Es|]. apply frame_wf; auto.
+  - rewrite Hg. intros x' t. now apply wf_gene_trait.
+  - rewrite Hn. intros n' t. now apply wf_node_trait.
+Qed.
+
+Theorem mutate_link_trait_wf times g s g' b s' :
+  mutate_link_trait times g s = Ok ((g', b), s') -> wf g -> env_ok (s_env s) g -> op_ok g s g' s'.
+Proof.
+  intros H Hwf He. apply link_trait_spec in H. destruct H as (Fr & Hn & Ht & HF & _ & Es).
+  apply op_ok_same_env; [exact Es|]. apply frame_wf; auto.
+  - intros x' t Hx' Htr. destruct (Forall2_In_r _ _ _ _ HF Hx') as (x & Hx & [->|(tr & Hin & ->)]).
+    + eapply wf_gene_trait; eauto.
+    + cbn in Htr. injection Htr as <-. apply traits_ok_has; [exact (wf_traits g Hwf)|exact Hin].
+  - rewrite Hn. intros n' t. now apply wf_node_trait.
+Qed.
+
+Theorem mutate_node_trait_wf times g s g' b s' :
+  mutate_node_trait times g s = Ok ((g', b), s') -> wf g -> env_ok (s_env s) g -> op_ok g s g' s'.
+Proof.
+  intros H Hwf He. apply node_trait_spec in H. destruct H as (Fr & Hg & Ht & HF & _ & Es).
+  apply op_ok_same_env; [exact Es|]. apply frame_wf; auto.
+  - rewrite Hg. intros x' t. now apply wf_gene_trait.
+  - intros n' t Hn' Htr. destruct (Forall2_In_r _ _ _ _ HF Hn') as (n & Hn & [->|(tr & Hin & ->)]).
+    + eapply wf_node_trait; eauto.
+    + cbn in Htr. injection Htr as <-. apply traits_ok_has; [exact (wf_traits g Hwf)|exact Hin].
+Qed.
+
+Theorem mutate_toggle_enable_wf times g s g' b s' :
+  mutate_toggle_enable times g s = Ok ((g', b), s') -> wf g -> env_ok (s_env s) g -> op_ok g s g' s'.
+Proof.
+  intros H Hwf He. apply toggle_spec in H. destruct H as (Fr & Hn & Ht & HF & _ & _ & Es).
+  apply op_ok_same_env; [exact Es|]. apply frame_wf; auto.
+  - intros x' t Hx' Htr. destruct (Forall2_In_r _ _ _ _ HF Hx') as (x & Hx & [->|(_ & ->)]);
+      eapply wf_gene_trait; eauto.
+  - rewrite Hn. intros n' t. now apply wf_node_trait.
+Qed.
+
+Theorem mutate_gene_reenable_wf g s g' b s' :
+  mutate_gene_reenable g s = Ok ((g', b), s') -> wf g -> env_ok (s_env s) g -> op_ok g s g' s'.
+Proof.
+  intros H Hwf He. apply reenable_spec in H. destruct H as (Fr & Hn & Ht & Hcase & _ & ->).
+  apply op_ok_same_env; [reflexivity|]. apply frame_wf; auto.
+  - intros x' t Hx' Htr. destruct Hcase as [(_ & Hg)|(l1 & x & l2 & Hg & _ & _ & Hg')].
+    + rewrite Hg in Hx'. eapply wf_gene_trait; eauto.
+    + rewrite Hg' in Hx'. apply in_app_or in Hx'. destruct Hx' as [Hx'|[<-|Hx']].
+      * eapply wf_gene_trait; eauto. rewrite Hg. apply in_or_app. now left.
+      * eapply (wf_gene_trait g x); eauto. rewrite Hg. apply in_or_app. right. now left.
+      * eapply wf_gene_trait; eauto. rewrite Hg. apply in_or_app. right. now right.
+  - rewrite Hn. intros n' t. now apply wf_node_trait.
+Qed.
+
+Lemma op_ok_trans g0 s0 g1 s1 g2 s2 :
+  op_ok g0 s0 g1 s1 -> op_ok g1 s1 g2 s2 -> op_ok g0 s0 g2 s2.
+Proof.
+  intros (_ & R1 & _ & X1) (W2 & R2 & E2 & X2). split; [exact W2|]. split; [|split; [exact E2|]].
+  - eapply retains_io_trans; eauto.
+  - eapply env_extends_trans; eauto.
+Qed.
+
+Lemma step_if_wf p op g0 s0 (gb : genome * bool) s r s' :
+  (forall g s g' b s', op g s = Ok ((g', b), s') -> wf g -> env_ok (s_env s) g -> op_ok g s g' s') ->
+  op_ok g0 s0 (fst gb) s ->
+  step_if p op gb s = Ok (r, s') -> op_ok g0 s0 (fst r) s'.
+Proof.
+  intros Hop Hok H. unfold step_if in H. minv.
+  pose proof (ep_float64 _ _ _ E) as Es.
+  assert (Hok1 : op_ok g0 s0 (fst gb) s1).
+  { destruct Hok as (A & B & C & D). unfold op_ok. rewrite Es. auto. }
+  destruct (PrimFloat.ltb a p).
+  - destruct r as [g' b]. eapply op_ok_trans; [exact Hok1|]. eapply Hop; [exact H| |]; apply Hok1.
+  - minv. subst. exact Hok1.
+Qed.
+
+Theorem mutate_all_nonstructural_wf o g s g' b s' :
+  mutate_all_nonstructural o g s = Ok ((g', b), s') -> wf g -> env_ok (s_env s) g -> op_ok g s g' s'.
+Proof.
+  unfold mutate_all_nonstructural. intros H Hwf He. minv.
+  assert (H0 : op_ok g s (fst (g, false)) s).
+  { split; [exact Hwf|split; [apply retains_io_refl|split; [exact He|apply env_extends_refl]]]. }
+  eapply step_if_wf in E; [| |exact H0]. 2:{ intros; eapply mutate_random_trait_wf; eauto. }
+  eapply step_if_wf in E0; [| |exact E]. 2:{ intros; eapply mutate_link_trait_wf; eauto. }
+  eapply step_if_wf in E1; [| |exact E0]. 2:{ intros; eapply mutate_node_trait_wf; eauto. }
+  eapply step_if_wf in E2; [| |exact E1]. 2:{ intros; eapply mutate_link_weights_wf; eauto. }
+  eapply step_if_wf in E3; [| |exact E2]. 2:{ intros; eapply mutate_toggle_enable_wf; eauto. }
+  eapply step_if_wf in H; [| |exact E3]. 2:{ intros; eapply mutate_gene_reenable_wf; eauto. }
+  exact H.
+Qed.
+
+(* ---------- inserting one link gene (add-link, connect-sensors) ---------- *)
+Lemma find_link_innov_some : forall l i o rc inn,
+    find_link_innov l i o rc = Some inn ->
+    In inn l /\ i_type inn = 2 /\ i_in inn = i /\ i_out inn = o /\ i_rec inn = rc.
+Proof.
+  induction l as [|x l IH]; intros i o rc inn H; cbn [find_link_innov] in H; [discriminate|].
+  destruct (_ && _) eqn:E.
+  - injection H as <-. repeat (apply andb_true_iff in E; destruct E as [E ?]).
+    repeat match goal with H : Z.eqb _ _ = true |- _ => apply Z.eqb_eq in H end.
+    match goal with H : Bool.eqb _ _ = true |- _ => apply eqb_prop in H end.
+    repeat split; auto. now left.
+  - destruct (IH _ _ _ _ H) as (Hin & Hrest). split; [now right|exact Hrest].
+Qed.
+
+Lemma has_trait_traits g g' t : traits g' = traits g -> has_trait g t -> has_trait g' t.
+Proof. intros E. apply has_trait_same_ids. now rewrite E. Qed.
+
+Definition endpoints_of (g : genome) (x : gene) : Prop :=
+  exists a b, node_with_id (g_in x) (nodes g) = Some a /\ node_with_id (g_out x) (nodes g) = Some b /\
+              is_sensor b = false.
+
+Lemma wf_insert_gene g x :
+  wf g -> ~ In (g_innov x) (map g_innov (genes g)) -> ~ In (link_key x) (map link_key (genes g)) ->
+  endpoints_of g x -> (forall t, g_trait x = Some t -> has_trait g t) ->
+  wf (with_genes g (gene_insert (genes g) x)).
+Proof.
+  intros [Hne Hgs Hln Hns Hep Htr Htk Hout Hmod] Hfi Hfk Hends Htx.
+  pose proof (insert_sorted_perm g_innov (genes g) x) as Hperm.
+  assert (Hin : forall z, In z (gene_insert (genes g) x) -> z = x \/ In z (genes g)).
+  { intros z. apply (insert_sorted_In g_innov). }
+  constructor; cbn [genes nodes traits modules with_genes]; try assumption.
+  - intros E. unfold gene_insert in E. rewrite E in Hperm. apply Permutation_nil in Hperm. discriminate.
+  - unfold genes_sorted. cbn [genes with_genes]. now apply insert_sorted_asc.
+  - unfold links_nodup. cbn [genes with_genes].
+    apply (Permutation_NoDup (l := link_key x :: map link_key (genes g))).
+    + apply Permutation_sym. exact (Permutation_map link_key Hperm).
+    + now constructor.
+  - intros z Hz. cbn [genes with_genes] in Hz. destruct (Hin z Hz) as [->|Hz']; [exact Hends|now apply Hep].
+  - destruct Htr as [Hg Hn]. split.
+    + intros z t Hz Ht. cbn [genes with_genes] in Hz. apply (has_trait_traits g); [reflexivity|].
+      destruct (Hin z Hz) as [->|Hz']; [now apply Htx|now apply (Hg z)].
+    + intros n t Hn' Ht. apply (has_trait_traits g); [reflexivity|]. now apply (Hn n).
+Qed.
+
+Lemma insert_link_ok g x s s' :
+  wf g -> env_ok (s_env s) g -> link_from_env g x s s' -> endpoints_of g x ->
+  (forall y, In y (genes g) -> link_key y <> link_key x) ->
+  op_ok g s (with_genes g (gene_insert (genes g) x)) s'.
+Proof.
+  intros Hwf He Hfrom Hends Hnew.
+  assert (Hfk : ~ In (link_key x) (map link_key (genes g))).
+  { intros H. apply in_map_iff in H. destruct H as (y & Hk & Hy). now apply (Hnew y). }
+  assert (Hgrow : forall e', env_ok e' g -> justified e' x ->
+                             env_ok e' (with_genes g (gene_insert (genes g) x))).
+  { intros e' He' Hj. apply (env_ok_grow e' g); [exact He'| |].
+    - intros z Hz. cbn [genes with_genes] in Hz. apply (insert_sorted_In g_innov) in Hz.
+      destruct Hz as [->|Hz]; [now right|left; now exists z].
+    - intros n Hn. left. now exists n. }
+  assert (Hio : retains_io g (with_genes g (gene_insert (genes g) x))) by (apply retains_io_incl; auto).
+  destruct Hfrom as [(inn & tr & Hf & Htr & Hx & _ & Es)|(Hf & tn & w & tr & Htr & Hx & Hin & Hni & Hnn)].
+  - apply find_link_innov_some in Hf. destruct Hf as (Hinn & Hty & Hi & Ho & Hr).
+    assert (Hnum : g_innov x = i_num inn) by (rewrite Hx; reflexivity).
+    assert (Htx : g_trait x = tr) by (rewrite Hx; reflexivity).
+    assert (Hkey : link_key x = (i_in inn, i_out inn, i_rec inn)) by (unfold link_key; congruence).
+    assert (Hfi : ~ In (g_innov x) (map g_innov (genes g))).
+    { intros H. apply in_map_iff in H. destruct H as (y & Hyn & Hy).
+      apply (Hnew y Hy). rewrite Hkey. apply (eo_link _ _ He inn y); auto. congruence. }
+    unfold op_ok. rewrite Es. split; [|split; [exact Hio|split; [|apply env_extends_refl]]].
+    + apply wf_insert_gene; auto. intros t Ht. eapply trait_at_has; [exact (wf_traits g Hwf)|exact Htr|congruence].
+    + apply Hgrow; [exact He|]. exists inn. split; [exact Hinn|]. left. auto.
+  - set (r := link_innovation (g_in x) (g_out x) (next_innov (s_env s) + 1) w tn (g_rec x)) in *.
+    assert (Hnum : g_innov x = next_innov (s_env s) + 1) by (rewrite Hx; reflexivity).
+    assert (Htx : g_trait x = tr) by (rewrite Hx; reflexivity).
+    assert (Hfi : ~ In (g_innov x) (map g_innov (genes g))).
+    { intros H. apply in_map_iff in H. destruct H as (y & Hyn & Hy).
+      pose proof (eo_innov _ _ He y Hy). lia. }
+    assert (Hext : env_extends (s_env s) (s_env s')).
+    { constructor; [lia|lia|]. exists [r]. split; [exact Hin|]. split.
+      - cbn. repeat constructor. intros [].
+      - intros i [<-|[]]. cbn. split; [lia|]. intros Ht. discriminate. }
+    split; [|split; [exact Hio|split; [|exact Hext]]].
+    + apply wf_insert_gene; auto. intros t Ht. eapply trait_at_has; [exact (wf_traits g Hwf)|exact Htr|congruence].
+    + apply Hgrow; [eapply env_ok_extends; eauto|].
+      exists r. split; [rewrite Hin; apply in_or_app; right; now left|]. left. cbn. auto.
+Qed.
+
+Lemma op_ok_refl g s : wf g -> env_ok (s_env s) g -> op_ok g s g s.
+Proof. intros A C. split; [exact A|split; [apply retains_io_refl|split; [exact C|apply env_extends_refl]]]. Qed.
+
+Lemma node_lookup g n : wf g -> In n (nodes g) -> node_with_id (n_id n) (nodes g) = Some n.
+Proof.
+  intros Hwf Hn. apply node_with_id_unique; auto. apply asc_NoDup. exact (wf_nodes g Hwf).
+Qed.
+
+Theorem mutate_add_link_wf o g s g' b s' :
+  mutate_add_link o g s = Ok ((g', b), s') -> wf g -> env_ok (s_env s) g -> op_ok g s g' s'.
+Proof.
+  intros H Hwf He. apply add_link_inv in H.
+  destruct H as [(_ & -> & Es)|(_ & x & n1 & n2 & s1 & Hi & Ho & Hen & Hopen & Hself & Hs1 & Hfrom & ->)].
+  - apply op_ok_same_env; [exact Es|]. split; [exact Hwf|split; [apply retains_io_refl|exact He]].
+  - destruct Hopen as ((a & c & Ha & Hc) & Hsens & Hex & _).
+    assert (Hok : op_ok g s1 (with_genes g (gene_insert (genes g) x)) s').
+    { apply insert_link_ok; auto.
+      - now rewrite Hs1.
+      - exists n1, n2. rewrite Hi, Ho. split; [apply node_lookup; auto; eapply nth_error_In; eauto|].
+        split; [apply node_lookup; auto; eapply nth_error_In; eauto|exact Hsens].
+      - intros y Hy Hk. pose proof (existsb_false_forall _ _ Hex y Hy) as Hf. cbv beta in Hf.
+        unfold link_key in Hk. injection Hk as K1 K2 K3.
+        rewrite K1, K2, K3, Hi, Ho, !Z.eqb_refl, eqb_reflx in Hf. discriminate. }
+    destruct Hok as (A & B & C & D). unfold op_ok. rewrite <- Hs1. auto.
+Qed.
+
+(* ---------- connect-sensors ---------- *)
+Lemma connect_fold_ok g0 s0 sn :
+  wf g0 -> In sn (nodes g0) ->
+  forall outs g added stop s g' added' stop' s',
+    (forall out, In out outs -> In out (nodes g0) /\ is_sensor out = false) ->
+    op_ok g0 s0 g s -> nodes g = nodes g0 ->
+    foldM (connect_one (n_id sn)) outs (g, added, stop) s = Ok ((g', added', stop'), s') ->
+    op_ok g0 s0 g' s' /\ nodes g' = nodes g0.
+Proof.
+  intros Hwf0 Hsn. induction outs as [|out outs IH]; intros g added stop s g' added' stop' s' Houts Hok Hnodes H;
+    cbn [foldM] in H.
+  - minv. pairs. subst. auto.
+  - minv. destruct a as [[g1 added1] stop1].
+    assert (Hstep : op_ok g0 s0 g1 s1 /\ nodes g1 = nodes g0).
+    { apply connect_one_inv in E.
+      destruct E as [(_ & -> & _ & _ & ->)|(_ & Eex & [(-> & _ & _ & Es)|(x & Hxi & Hxo & _ & _ & Hfrom & -> & _ & _)])].
+      - auto.
+      - split; [|exact Hnodes]. destruct Hok as (A & B & C & D). unfold op_ok. rewrite Es. auto.
+      - split; [|exact Hnodes]. destruct Hok as (A & B & C & D).
+        destruct (Houts out (or_introl eq_refl)) as [Hout Hns].
+        eapply op_ok_trans; [split; [exact A|split; [exact B|split; [exact C|exact D]]]|].
+        apply insert_link_ok; auto.
+        + exists sn, out. rewrite Hxi, Hxo.
+          split; [apply node_lookup; auto; now rewrite Hnodes|].
+          split; [apply node_lookup; auto; now rewrite Hnodes|exact Hns].
+        + intros y Hy Hk. pose proof (existsb_false_forall _ _ Eex y Hy) as Hf. cbv beta in Hf.
+          unfold link_key in Hk. injection Hk as K1 K2 _. rewrite K1, K2, Hxi, Hxo, !Z.eqb_refl in Hf. discriminate. }
+    destruct Hstep as [Hok1 Hn1]. eapply IH; eauto. intros o Ho. apply Houts. now right.
+Qed.
+
+Theorem mutate_connect_sensors_wf g s g' b s' :
+  mutate_connect_sensors g s = Ok ((g', b), s') -> wf g -> env_ok (s_env s) g -> op_ok g s g' s'.
+Proof.
+  unfold mutate_connect_sensors. intros H Hwf He. destruct (genes g) as [|x0 gs0] eqn:Eg; [minv|].
+  rewrite <- Eg in H. clear x0 gs0 Eg.
+  destruct (filter _ (filter is_sensor (nodes g))) as [|d0 ds] eqn:Edis.
+  { minv. pairs. subst. now apply op_ok_refl. }
+  rewrite <- Edis in H. minv. subst.
+  match goal with H : idx _ _ = Ok _ |- _ => apply idx_inv in H; destruct H as [_ Hsn] end.
+  apply nth_error_In, filter_In in Hsn. destruct Hsn as [Hsn _]. apply filter_In in Hsn. destruct Hsn as [Hsn _].
+  destruct a1 as [[g1 added] stop]. minv. pairs. subst.
+  match goal with H : foldM _ _ _ _ = Ok _ |- _ => rename H into Hfold end.
+  match goal with H : r_intn _ _ = Ok _ |- _ => apply ep_intn in H; rename H into Es0 end.
+  assert (Hok0 : op_ok g s g s0).
+  { destruct (op_ok_refl g s Hwf He) as (A & B & C & D). unfold op_ok. rewrite Es0. auto. }
+  destruct (connect_fold_ok g s a0 Hwf Hsn _ _ _ _ _ _ _ _ _
+              (fun out (Ho : In out (filter (fun n => negb (is_sensor n)) (nodes g))) =>
+                 match proj1 (filter_In _ _ _) Ho with
+                 | conj Hin Hneg => conj Hin (proj1 (negb_true_iff _) Hneg)
+                 end) Hok0 eq_refl Hfold) as [Hok _].
+  exact Hok.
+Qed.
+
+(* ---------- add-node ---------- *)
+Lemma find_node_innov_some : forall l i o old inn,
+    find_node_innov l i o old = Some inn ->
+    In inn l /\ i_type inn = 1 /\ i_in inn = i /\ i_out inn = o /\ i_old inn = old.
+Proof.
+  induction l as [|x l IH]; intros i o old inn H; cbn [find_node_innov] in H; [discriminate|].
+  destruct (_ && _) eqn:E.
+  - injection H as <-. repeat (apply andb_true_iff in E; destruct E as [E ?]).
+    repeat match goal with H : Z.eqb _ _ = true |- _ => apply Z.eqb_eq in H end.
+    repeat split; auto. now left.
+  - destruct (IH _ _ _ _ H) as (Hin & Hrest). split; [now right|exact Hrest].
+Qed.
+
+Lemma wf_ends_in_nodes g y : wf g -> In y (genes g) ->
+  In (g_in y) (map n_id (nodes g)) /\ In (g_out y) (map n_id (nodes g)).
+Proof.
+  intros Hwf Hy. destruct (wf_endpoints g Hwf y Hy) as (a & b & Ha & Hb & _).
+  apply node_with_id_In in Ha, Hb. destruct Ha as [Ha <-], Hb as [Hb <-]. split; now apply in_map.
+Qed.
+
+Lemma wf_split g k x nd num1 num2 :
+  wf g -> nth_error (genes g) k = Some x -> n_type nd = HIDDEN -> ~ In (n_id nd) (map n_id (nodes g)) ->
+  (forall t, n_trait nd = Some t -> has_trait g t) ->
+  ~ In num1 (map g_innov (genes g)) -> ~ In num2 (map g_innov (genes g)) -> num1 <> num2 ->
+  wf (split_genome g k x nd num1 num2).
+Proof.
+  intros Hwf Hk Hty Hfresh Hndt Hn1 Hn2 Hne.
+  pose proof Hwf as [Hnonempty Hgs Hln Hns Hep Htr Htk Hout Hmod].
+  assert (Hx : In x (genes g)) by (eapply nth_error_In; eauto).
+  unfold split_genome.
+  set (gs1 := set_nth (genes g) k (set_en false x)).
+  set (x1 := mk_gene (g_trait x) 1%float (g_in x) (n_id nd) (g_rec x) num1 0%float).
+  set (x2 := mk_gene (g_trait x) (g_w x) (n_id nd) (g_out x) false num2 0%float).
+  set (ns' := node_insert (nodes g) nd).
+  assert (Hsig : map gene_sig gs1 = map gene_sig (genes g)).
+  { subst gs1. eapply map_set_nth_same; eauto. }
+  assert (Hgs1 : forall z, In z gs1 -> exists y, In y (genes g) /\ gene_sig y = gene_sig z /\ g_trait z = g_trait y).
+  { intros z Hz. subst gs1. apply set_nth_In in Hz. destruct Hz as [->|Hz]; [exists x|exists z]; auto. }
+  pose proof (insert_sorted_perm g_innov gs1 x1) as Hp1.
+  pose proof (insert_sorted_perm g_innov (gene_insert gs1 x1) x2) as Hp2.
+  assert (Hin : forall z, In z (gene_insert (gene_insert gs1 x1) x2) -> z = x2 \/ z = x1 \/ In z gs1).
+  { intros z Hz. apply (insert_sorted_In g_innov) in Hz. destruct Hz as [->|Hz]; [now left|right].
+    now apply (insert_sorted_In g_innov) in Hz. }
+  assert (Hoff : forall z, In z gs1 -> g_in z <> n_id nd /\ g_out z <> n_id nd).
+  { intros z Hz. destruct (Hgs1 z Hz) as (y & Hy & Hs & _). destruct (gene_sig_ends _ _ Hs) as [<- <-].
+    destruct (wf_ends_in_nodes g y Hwf Hy) as [Hi Ho]. split; intros E; apply Hfresh; congruence. }
+  destruct (wf_ends_in_nodes g x Hwf Hx) as [Hxi Hxo].
+  assert (Hasc1 : asc g_innov gs1).
+  { unfold genes_sorted, asc in *. now rewrite map_innov_sig, Hsig, <- map_innov_sig. }
+  assert (Hi1 : map g_innov gs1 = map g_innov (genes g)) by now rewrite map_innov_sig, Hsig, <- map_innov_sig.
+  assert (Hk1 : map link_key gs1 = map link_key (genes g)) by now rewrite map_key_sig, Hsig, <- map_key_sig.
+  assert (Hasc' : asc n_id ns') by (apply insert_sorted_asc; assumption).
+  assert (Hnin : forall n, In n ns' <-> n = nd \/ In n (nodes g)) by (intros n; apply (insert_sorted_In n_id)).
+  assert (Hold : forall id a, node_with_id id (nodes g) = Some a -> node_with_id id ns' = Some a).
+  { intros id a Ha. apply node_with_id_In in Ha. destruct Ha as [Ha Hid].
+    apply node_with_id_unique; [now apply asc_NoDup|apply Hnin; now right|exact Hid]. }
+  assert (Hnew : node_with_id (n_id nd) ns' = Some nd).
+  { apply node_with_id_unique; [now apply asc_NoDup|apply Hnin; now left|reflexivity]. }
+  assert (Hsens : is_sensor nd = false) by (unfold is_sensor; rewrite Hty; reflexivity).
+  constructor; cbn [genes nodes traits modules]; try assumption.
+  - intros E. unfold gene_insert in E, Hp2. rewrite E in Hp2. apply Permutation_nil in Hp2. discriminate.
+  - unfold genes_sorted. cbn [genes]. apply insert_sorted_asc.
+    + apply insert_sorted_asc; [exact Hasc1|]. cbn. now rewrite Hi1.
+    + cbn [g_innov x2 mk_gene]. intros H. apply in_map_iff in H. destruct H as (z & Hz & Hzin).
+      apply (insert_sorted_In g_innov) in Hzin. destruct Hzin as [->|Hzin]; [cbn in Hz; congruence|].
+      apply Hn2. rewrite <- Hi1, <- Hz. now apply in_map.
+  - unfold links_nodup. cbn [genes].
+    apply (Permutation_NoDup (l := link_key x2 :: link_key x1 :: map link_key gs1)).
+    + apply Permutation_sym. etransitivity; [exact (Permutation_map link_key Hp2)|].
+      cbn [map]. constructor. exact (Permutation_map link_key Hp1).
+    + constructor; [|constructor; [|now rewrite Hk1]].
+      * intros [H|H].
+        -- unfold link_key in H. cbn in H. injection H as H _ _. apply Hfresh. congruence.
+        -- apply in_map_iff in H. destruct H as (z & Hz & Hzin). unfold link_key in Hz. cbn in Hz.
+           injection Hz as Hz _ _. now destruct (Hoff z Hzin).
+      * intros H. apply in_map_iff in H. destruct H as (z & Hz & Hzin). unfold link_key in Hz. cbn in Hz.
+        injection Hz as _ Hz _. now destruct (Hoff z Hzin).
+  - intros z Hz. cbn [genes nodes] in *. destruct (Hep x Hx) as (a & b & Ha & Hb & Hsb).
+    destruct (Hin z Hz) as [->|[->|Hz1]].
+    + exists nd, b. cbn. auto.
+    + exists a, nd. cbn. auto.
+    + destruct (Hgs1 z Hz1) as (y & Hy & Hs & _). destruct (gene_sig_ends _ _ Hs) as [<- <-].
+      destruct (Hep y Hy) as (a' & b' & Ha' & Hb' & Hsb'). exists a', b'. auto.
+  - destruct Htr as [Hg Hn]. split.
+    + intros z t Hz Ht. cbn [genes] in Hz. apply (has_trait_traits g); [reflexivity|].
+      destruct (Hin z Hz) as [->|[->|Hz1]]; [now apply (Hg x)|now apply (Hg x)|].
+      destruct (Hgs1 z Hz1) as (y & Hy & _ & Hty'). apply (Hg y); congruence.
+    + intros n t Hn' Ht. cbn [nodes] in Hn'. apply (has_trait_traits g); [reflexivity|].
+      apply Hnin in Hn'. destruct Hn' as [->|Hn']; [now apply Hndt|now apply (Hn n)].
+  - destruct Hout as (n & Hn & Hto). exists n. split; [apply Hnin; now right|exact Hto].
+Qed.
+
+Lemma split_ok e g k x nd r :
+  wf g -> env_ok e g -> nth_error (genes g) k = Some x ->
+  In r (innovs e) -> i_type r = 1 -> n_id nd = i_node r -> n_type nd = HIDDEN ->
+  ~ In (n_id nd) (map n_id (nodes g)) -> (forall t, n_trait nd = Some t -> has_trait g t) ->
+  wf (split_genome g k x nd (i_num r) (i_num2 r)) /\
+  retains_io g (split_genome g k x nd (i_num r) (i_num2 r)) /\
+  env_ok e (split_genome g k x nd (i_num r) (i_num2 r)).
+Proof.
+  intros Hwf He Hk Hr Hty Hnid Hhid Hfresh Hndt.
+  destruct (eo_rec _ _ He r Hr) as [_ H2]. destruct (H2 Hty) as (Hne & _ & _).
+  assert (Hn1 : ~ In (i_num r) (map g_innov (genes g))).
+  { intros H. apply in_map_iff in H. destruct H as (y & Hyn & Hy).
+    destruct (eo_split _ _ He r y Hr Hty Hy) as [Ho _]. specialize (Ho Hyn).
+    destruct (wf_ends_in_nodes g y Hwf Hy) as [_ Hout]. apply Hfresh. congruence. }
+  assert (Hn2 : ~ In (i_num2 r) (map g_innov (genes g))).
+  { intros H. apply in_map_iff in H. destruct H as (y & Hyn & Hy).
+    destruct (eo_split _ _ He r y Hr Hty Hy) as [_ Hi]. specialize (Hi Hyn).
+    destruct (wf_ends_in_nodes g y Hwf Hy) as [Hin _]. apply Hfresh. congruence. }
+  split; [now apply wf_split|]. split.
+  - apply retains_io_incl. intros n Hn. cbn [nodes split_genome]. apply (insert_sorted_In n_id). now right.
+  - apply (env_ok_grow e g); [exact He| |].
+    + intros z Hz. cbn [genes split_genome] in Hz.
+      apply (insert_sorted_In g_innov) in Hz. destruct Hz as [->|Hz].
+      { right. exists r. split; [exact Hr|]. right. split; [exact Hty|]. right. cbn. auto. }
+      apply (insert_sorted_In g_innov) in Hz. destruct Hz as [->|Hz].
+      { right. exists r. split; [exact Hr|]. right. split; [exact Hty|]. left. cbn. auto. }
+      left. apply set_nth_In in Hz. destruct Hz as [->|Hz]; [exists x|exists z]; split; auto.
+      eapply nth_error_In; eauto.
+    + intros n Hn. cbn [nodes split_genome] in Hn. apply (insert_sorted_In n_id) in Hn.
+      destruct Hn as [->|Hn]; [right; now exists r|left; now exists n].
+Qed.
+
+Theorem mutate_add_node_wf o g s g' b s' :
+  mutate_add_node o g s = Ok ((g', b), s') -> wf g -> env_ok (s_env s) g -> op_ok g s g' s'.
+Proof.
+  intros H Hwf He. apply add_node_inv in H.
+  destruct H as [(-> & _ & Es)|(k & x & Hk & Hsp & Hcase)].
+  { apply op_ok_same_env; [exact Es|]. split; [exact Hwf|split; [apply retains_io_refl|exact He]]. }
+  assert (Hx : In x (genes g)) by (eapply nth_error_In; eauto).
+  assert (Ht0 : forall t0, nth_error (traits g) 0 = Some t0 ->
+                           forall t, Some (t_id t0) = Some t -> has_trait g t).
+  { intros t0 Hn t Ht. injection Ht as <-. apply traits_ok_has; [exact (wf_traits g Hwf)|]. eapply nth_error_In; eauto. }
+  destruct Hcase as [(inn & t0 & Hf & Hn0 & Es & [(Hhn & _ & ->)|(Hhn & _ & ->)])|(Hf & t0 & act & Hn0 & _ & _ & -> & Hin & Hni & Hnn)].
+  - (* matching record, node already present: the gene stays disabled *)
+    apply op_ok_same_env; [exact Es|]. apply frame_wf; auto.
+    + unfold frame. cbn [nodes genes traits gid modules with_genes]. repeat split; auto.
+      eapply map_set_nth_same; eauto.
+    + intros z t Hz Ht. cbn [genes with_genes] in Hz. apply set_nth_In in Hz.
+      destruct Hz as [->|Hz]; [apply (wf_gene_trait g x)|apply (wf_gene_trait g z)]; auto.
+    + intros n t. cbn [nodes with_genes]. now apply wf_node_trait.
+  - (* matching record, new node *)
+    apply find_node_innov_some in Hf. destruct Hf as (Hinn & Hty & _).
+    apply op_ok_same_env; [exact Es|].
+    apply (split_ok (s_env s) g k x _ inn); auto.
+    + cbn. now apply have_node_false.
+    + cbn. now apply Ht0.
+  - (* fresh node and numbers *)
+    set (r := node_innovation x (next_node (s_env s) + 1) (next_innov (s_env s) + 1) (next_innov (s_env s) + 1 + 1)) in *.
+    assert (Hext : env_extends (s_env s) (s_env s')).
+    { constructor; [lia|lia|]. exists [r]. split; [exact Hin|]. split.
+      - cbn. constructor; [intros [E|[]]; lia|]. repeat constructor. intros [].
+      - intros i [<-|[]]. cbn. split; [lia|]. intros _. lia. }
+    assert (He' : env_ok (s_env s') g) by (eapply env_ok_extends; eauto).
+    assert (Hr : In r (innovs (s_env s'))) by (rewrite Hin; apply in_or_app; right; now left).
+    destruct (split_ok (s_env s') g k x
+                {| n_id := next_node (s_env s) + 1; n_type := HIDDEN; n_act := act; n_trait := Some (t_id t0) |} r
+                Hwf He' Hk Hr eq_refl eq_refl eq_refl) as (A & B & C).
+    + cbn [n_id]. intros Hc. apply in_map_iff in Hc. destruct Hc as (n & Hid & Hn).
+      pose proof (eo_node _ _ He n Hn). lia.
+    + cbn [n_trait]. now apply Ht0.
+    + split; [exact A|split; [exact B|split; [exact C|exact Hext]]].
+Qed.
+
+(* [op_ok g s g' s'] unfolds to
+     wf g' /\ retains_io g g' /\ env_ok (s_env s') g' /\ env_extends (s_env s) (s_env s');
+   the ten theorems above are: mutate_connect_sensors_wf, mutate_add_link_wf, mutate_add_node_wf,
+   mutate_link_weights_wf, mutate_random_trait_wf, mutate_link_trait_wf, mutate_node_trait_wf,
+   mutate_toggle_enable_wf, mutate_gene_reenable_wf, mutate_all_nonstructural_wf. *)
